@@ -179,9 +179,29 @@ fn page_ops<S: PageSize>(rep: &mut Report, r: &mut Rng, regs: &mut Regs, tag: &s
     let o = r.below(4) as usize;
     let (n, _) = gen::count(r, 0);
     let a = regs.v[i];
-    let which = r.below(9);
+    let which = r.below(10);
     let name;
     let res: Result<Option<VirtAddr>, ()> = match which {
+        9 => {
+            // exclusive range, typically from the end of the lower half into the upper half: whatever it yields (or
+            // leaves in its public `start` field) must be a valid page
+            name = "PageRange::next";
+            catch(|| {
+                let s = if r.chance(1, 2) { Page::<S>::containing_address(VirtAddr::new(0x7fff_ffff_ffff - (n % 4) * S::SIZE)) } else { Page::<S>::containing_address(a) };
+                let e = if r.chance(1, 2) { Page::<S>::containing_address(VirtAddr::new(0xffff_8000_0000_0000 + 3 * S::SIZE)) } else { Page::<S>::containing_address(regs.v[o]) };
+                let mut it = Page::range(s, e);
+                let mut last = None;
+                for _ in 0..(n % 6) + 1 {
+                    match it.next() {
+                        Some(p) => last = Some(p.start_address()),
+                        None => break,
+                    }
+                    // the public field is an address value obtained through the safe API as well
+                    last = Some(it.start.start_address()).filter(|v| !crate::gen::is_canonical(v.as_u64())).or(last);
+                }
+                last
+            })
+        }
         0 => {
             name = "Page::containing_address.start_address";
             catch(|| Some(Page::<S>::containing_address(a).start_address()))
